@@ -14,6 +14,17 @@ pub assume_specification [VCell::type_text] (v: &VCell) -> (r: &'static str);
         'impl VCell::undefined': {'props': [], 'ensures': ['r == VCell::Undefined']},
         'impl VCell::ptr': {'props': [], 'ensures': ['r == VCell::Ptr(val)']},
         'impl VCell::pair': {'props': [], 'ensures': ['r == VCell::Pair(car, cdr)']},
+        'impl VCell::is_boolean': {'props': [], 'ensures': ['r == (*self is Bool)']},
+        'impl VCell::is_number': {'props': [], 'ensures': ['r == (*self is Number)']},
+        'impl VCell::is_string': {'props': [], 'ensures': ['r == (*self is String)']},
+        'impl VCell::is_char': {'props': [], 'ensures': ['r == (*self is Char)']},
+        'impl VCell::is_symbol': {'props': [], 'ensures': ['r == (*self is Symbol)']},
+        'impl VCell::is_ptr': {'props': [], 'ensures': ['r == (*self is Ptr)']},
+        'impl VCell::is_envslot': {'props': [], 'ensures': ['r == (*self is GlobalEnvSlot)']},
+        'impl VCell::is_opcode': {'props': [], 'ensures': ['r == (*self is OpCode)']},
+        'impl VCell::is_lexical_env': {'props': [], 'ensures': ['r == (*self is LexicalEnv)']},
+        'impl VCell::is_macro': {'props': [], 'ensures': ['r == (*self is Macro)']},
+        'impl VCell::is_vector': {'props': [], 'ensures': ['r == (*self is Vector)']},
         'impl VCell::is_pair': {'props': T, 'ensures': ['r == (*self is Pair)']},
         'impl VCell::is_lambda': {'props': [], 'ensures': ['r == (*self is Lambda)']},
         'impl VCell::is_closure': {'props': [], 'ensures': ['r == (*self is Closure)']},
